@@ -94,6 +94,8 @@ int run(const std::unique_ptr<VerilatedContext> &contextp,
         size_t maxCycles) {
   uint64_t cycle_count = 0;
   int exitCode = 0;
+  bool syscallPending = false;
+  hex::Syscall pendingSyscall = hex::Syscall::EXIT;
 
   // Set input signals, with reset asserted before the first clock edge so that
   // nothing is executed from the power-on state of the registers.
@@ -130,12 +132,17 @@ int run(const std::unique_ptr<VerilatedContext> &contextp,
                      % static_cast<unsigned>(top->hex->u_processor->instr)
                      % instr;
     }
-    // Handle syscalls: the instruction presented during the low clock phase
-    // retires on the next rising edge.
+    // Handle syscalls: a request seen during the low clock phase belongs to
+    // the instruction that retires on the next rising edge. The call is
+    // performed after that edge, as in hexsim where it follows the fetch of
+    // the SVC instruction (so a READ result may overwrite that instruction).
     if (!top->i_clk && !top->i_rst && top->o_syscall_valid) {
-      auto syscall = static_cast<hex::Syscall>(top->o_syscall);
-      handleSyscall(syscall, top, exitCode, trace);
-      if (syscall == hex::Syscall::EXIT) {
+      syscallPending = true;
+      pendingSyscall = static_cast<hex::Syscall>(top->o_syscall);
+    } else if (top->i_clk && syscallPending) {
+      syscallPending = false;
+      handleSyscall(pendingSyscall, top, exitCode, trace);
+      if (pendingSyscall == hex::Syscall::EXIT) {
         break;
       }
     }
